@@ -17,7 +17,8 @@ RULE = ('(n,2) pseudo-observation arrays, n in 2..400: Gaussian-copula samples o
         'of fit run at Float on the quantities the code derives from the data (min/max, kendalltau, constant flags, '
         'Frank solver output), and scipy kendalltau with the Lean tau-b; distinct by (kind, n, family, data hash), '
         'non-trivial when n >= 3')
-PARTIAL = ['Frank: accuracy of least_squares/quad is an external hypothesis; the calibrated theta deviates from the '
+PARTIAL = ['Props/C10c: for the ideal calibration tau(theta) (lower limit 0): oddness, strict monotonicity on R\\{0}, bounds and limits +-1, existence and uniqueness of theta for every tau0 in (-1,1)\\{0}; for the code\'s epsilon-shifted residual: exact shift -4 int_0^eps/theta^2 (|.| <= 4 eps/theta^2), existence+uniqueness of the positive root, the spurious positive root for tau0 <= 0 (mechanism of the recorded near-zero finding) and non-monotonicity on the negative axis',
+           'Frank: accuracy of least_squares/quad is an external hypothesis; the calibrated theta deviates from the '
            'root of tau(theta)=tau by ~4.8e-7/theta^2 because the Debye integral starts at EPSILON (known finding)',
            'Frank tau(theta) strictly monotone (uniqueness of the calibration): not proved',
            'tau = +-1 (theta = inf / solver bound): outside the property quantifier tau in (-1,1)']
